@@ -16,6 +16,53 @@ pub enum Family {
     Class { format: Format, maxlen: usize },
     Struct(StructFamily),
     Recs(Vec<RecFile>),
+    /// explicit inputs
+    Raw(&'static str, Vec<Vec<u8>>),
+}
+
+/// headers a shape menu does not produce: spaces and CR at every edge of id and description
+pub const HEAD_MENU: &[&[u8]] = &[b"", b"id", b"id ", b" ", b"  ", b"id  ", b" id", b"id d ", b"a  b", b"id d e", b"a\rb", b"\rx", b"id \rd", b"\xffz \xc3", b"a\tb"];
+
+/// one record with every header of the menu (LF / CRLF), alone, followed by and following a plain record
+pub fn head_menu_inputs(format: Format) -> Vec<Vec<u8>> {
+    let mut out = vec![];
+    for head in HEAD_MENU {
+        for nl in [&b"\n"[..], &b"\r\n"[..]] {
+            let rec = |h: &[u8]| -> Vec<u8> {
+                let mut r = vec![];
+                match format {
+                    Format::Fasta => {
+                        r.push(b'>');
+                        r.extend_from_slice(h);
+                        r.extend_from_slice(nl);
+                        r.extend_from_slice(b"AC");
+                        r.extend_from_slice(nl);
+                    }
+                    Format::Fastq => {
+                        r.push(b'@');
+                        r.extend_from_slice(h);
+                        r.extend_from_slice(nl);
+                        r.extend_from_slice(b"AC");
+                        r.extend_from_slice(nl);
+                        r.extend_from_slice(b"+");
+                        r.extend_from_slice(nl);
+                        r.extend_from_slice(b"IJ");
+                        r.extend_from_slice(nl);
+                    }
+                }
+                r
+            };
+            let one = rec(head);
+            out.push(one.clone());
+            let mut two = one.clone();
+            two.extend_from_slice(&rec(b"p q"));
+            out.push(two);
+            let mut three = rec(b"p q");
+            three.extend_from_slice(&one);
+            out.push(three);
+        }
+    }
+    out
 }
 
 impl Family {
@@ -24,6 +71,7 @@ impl Family {
             Family::Class { format, maxlen } => class_count(*format, *maxlen),
             Family::Struct(s) => s.count(),
             Family::Recs(v) => v.len() as u64,
+            Family::Raw(_, v) => v.len() as u64,
         }
     }
     pub fn get(&self, idx: u64) -> Vec<u8> {
@@ -31,6 +79,7 @@ impl Family {
             Family::Class { format, .. } => class_string(*format, idx),
             Family::Struct(s) => s.get(idx).bytes(),
             Family::Recs(v) => v[idx as usize].bytes(),
+            Family::Raw(_, v) => v[idx as usize].clone(),
         }
     }
     pub fn name(&self) -> String {
@@ -44,6 +93,7 @@ impl Family {
                 s.format.name()
             ),
             Family::Recs(v) => format!("record-shape family, {} files", v.len()),
+            Family::Raw(n, v) => format!("{}, {} files", n, v.len()),
         }
     }
 }
@@ -83,6 +133,7 @@ pub fn families(format: Format, tier: Tier) -> Vec<Family> {
         }),
         Family::Recs(recs),
         Family::Recs(long_files(format, true)),
+        Family::Raw("header menu (spaces / CR / TAB / non-UTF-8 at every edge of id and description)", head_menu_inputs(format)),
     ]
 }
 
